@@ -124,6 +124,7 @@ type c20FCase struct {
 	// registered and used the same metric names before (a limiter rebuilt on a configuration reload); 2 = the names
 	// already exist in the backend as metrics of the right kind (an operator pre-registered them).
 	Shared int `json:"shared,omitempty"`
+	Times  int `json:"times,omitempty"` // the op list is gone through that many times
 }
 
 func genC20F(t *rapid.T) c20FCase {
@@ -140,6 +141,11 @@ func genC20F(t *rapid.T) c20FCase {
 		return o
 	})
 	c.Ops = rapid.SliceOfN(op, 1, 40).Draw(t, "ops")
+	// long-lived listeners: the op list is gone through several times (hundreds / thousands of samples per metric)
+	c.Times = rapid.SampledFrom([]int{1, 1, 1, 1, 1, 3, 10}).Draw(t, "times")
+	if c.Backend == "gometrics" && rapid.IntRange(0, 5).Draw(t, "long") == 0 {
+		c.Times = rapid.SampledFrom([]int{30, 100, 300}).Draw(t, "longTimes")
+	}
 	if c.Backend == "gometrics" {
 		c.Shared = rapid.SampledFrom([]int{0, 0, 1, 2}).Draw(t, "shared")
 	}
@@ -189,7 +195,16 @@ func runC20F(_ *testing.T, c c20FCase) (out kit.Outcome) {
 	listeners := map[string]core.MetricSampleListener{}
 	kinds := map[string]bool{}
 	adds := 0
-	for i, o := range c.Ops {
+	times := c.Times
+	if times < 1 {
+		times = 1
+	}
+	ops := make([]c20FOp, 0, len(c.Ops)*times)
+	for r := 0; r < times; r++ {
+		ops = append(ops, c.Ops...)
+	}
+	maxCount := int64(0)
+	for i, o := range ops {
 		id := fmt.Sprintf("%c%d", o.Kind[0], o.ID) // distinct names per kind
 		name := b.prefix + id
 		key := o.Kind + "/" + id
@@ -232,11 +247,16 @@ func runC20F(_ *testing.T, c c20FCase) (out kit.Outcome) {
 			}
 			switch o.Kind {
 			case "distribution":
-				if after.count != before.count+1 || after.sum-before.sum != int64(o.V) {
+				if after.count > maxCount {
+					maxCount = after.count
+				}
+				// the histogram counts every sample ever recorded; its sum is the sum of its *reservoir* (a bounded
+				// sample of the values, go-metrics semantics), exact only while nothing has been evicted from it
+				if after.count != before.count+1 || (before.count < 50 && after.sum-before.sum != int64(o.V)) {
 					return kit.Viol("gometrics:value", "op %d: distribution sample %v for %q: histogram count %d->%d sum %d->%d", i, o.V, name, before.count, after.count, before.sum, after.sum)
 				}
 			case "timing":
-				if after.count != before.count+1 || after.sum-before.sum != int64(time.Duration(o.V)*time.Millisecond) {
+				if after.count != before.count+1 || (before.count < 50 && after.sum-before.sum != int64(time.Duration(o.V)*time.Millisecond)) {
 					return kit.Viol("gometrics:value", "op %d: timing sample %v for %q: timer count %d->%d sum %d->%d", i, o.V, name, before.count, after.count, before.sum, after.sum)
 				}
 			case "count":
@@ -260,7 +280,7 @@ func runC20F(_ *testing.T, c c20FCase) (out kit.Outcome) {
 			}
 		}
 	}
-	return kit.Outcome{NonTrivial: len(kinds) == 3 && adds >= 3, Labels: []string{"backend:" + c.Backend, fmt.Sprintf("shared-backend:%d", c.Shared)}}
+	return kit.Outcome{NonTrivial: len(kinds) == 3 && adds >= 3, Labels: []string{"backend:" + c.Backend, fmt.Sprintf("shared-backend:%d", c.Shared), fmt.Sprintf("histogram-count>256:%v", maxCount > 256)}}
 }
 
 type gmSnap struct {
